@@ -48,15 +48,48 @@ def run_one(model, backend: str, src: str, md):
         a = impl.query_ast(src, md)
     except Exception as e:  # noqa: BLE001
         return {"stage": "frontend", "impl": "error", "cls": type(e).__name__, "model": None, "mcls": ""}
+    # the argument-count pre-pass (KindModel.seq_arity_ok) sees the tree in which seq.Select(f) has become Select(seq, f)
+    pre_model = None
+    if model is not None:
+        try:
+            import copy as _copy
+
+            from func_adl.ast import extract_metadata as _em
+            from func_adl.ast.func_adl_ast_utils import change_extension_functions_to_calls as _calls
+
+            from .. import astser as _as
+            a1 = _calls(_em(_copy.deepcopy(a))[0])
+            pm = model.call("c09.prepass", _as.ser(a1))
+            pre_model = "refused" if pm[0] == "error" else ("ok" if pm[0] == "ok" else None)
+        except Exception:  # noqa: BLE001 - the tree has a node the serialiser does not know: the pre-pass model is not consulted
+            pre_model = None
     r = impl.translate(backend, a, want_ast=True)
     ki = dict(impl.LAST_KIND_INPUT)
     impl.reset_globals()
     out = {"stage": ki.get("stage", "?"), "impl": r[0], "cls": r[1] if r[0] == "error" else "", "model": None, "mcls": ""}
+    pre_impl = "refused" if (r[0] == "error" and r[1] == "ValueError" and "takes exactly one argument" in str(r[2])) else "ok"
+    out["prepass"] = [pre_model, pre_impl]
     if model is not None and "ast" in ki:
         mr = model.call("c09.translate", [ki["registry"], ki["ast"]])
         out["model"] = mr[0]
         out["mcls"] = mr[1] if mr[0] == "error" else ""
     return out
+
+
+def note_prepass(oc, hist, be: str, src: str, r) -> None:
+    """KindModel.seq_arity_ok versus executor._check_sequence_call_arguments on the same query."""
+    pm, pi = r.get("prepass", [None, None])
+    if pm is None:
+        hist["graft"]["prepass:model-not-consulted"] += 1
+        return
+    hist["graft"][f"prepass:model-{pm}:impl-{pi}"] += 1
+    # the implementation may refuse earlier for another reason (metadata): only a query the pre-pass model refuses must be refused
+    # with the pre-pass's own error, and a query refused with that error must be one the model refuses
+    if (pm == "refused") != (pi == "refused") and not (pm == "ok" and pi == "ok"):
+        if pm == "refused" and r["impl"] == "error" and r["stage"] == "transform" and pi != "refused":
+            return  # refused during the transformations for an earlier reason (malformed metadata)
+        oc.correspondence_breaks.append({"backend": be, "query": src, "note": "argument-count pre-pass: model " + str(pm) + ", implementation " + str(pi),
+                                         "implementation": [r["impl"], r["cls"]]})
 
 
 def reuse_scenarios(be: str):
@@ -127,6 +160,7 @@ def check(tier: str, seed: int, t0: float, build: core.BuildStatus) -> int:
         for _ in range(n_valid):
             src, q = qgen.gen_query(rng, uni, depth=rng.choice([1, 2, 3, 3]), allow=("first", "aggregate", "range"))
             r = run_one(model, be, src, md)
+            note_prepass(oc, hist, be, src, r)
             oc.evaluations += 1
             hist["valid"][f"{r['stage']}:{r['impl']}"] += 1
             if r["stage"] == "frontend":
@@ -155,6 +189,7 @@ def check(tier: str, seed: int, t0: float, build: core.BuildStatus) -> int:
             for _ in range(n_graft):
                 src, q, extra = qgen.gen_grafted(rng, uni, kind, depth=rng.choice([1, 2, 3]))
                 r = run_one(model, be, src, md + extra)
+                note_prepass(oc, hist, be, src, r)
                 oc.evaluations += 1
                 hist["graft"][f"{kind}:{r['stage']}:{r['impl']}"] += 1
                 distinct.add((be, src))
